@@ -369,17 +369,19 @@ PROPS["C16"] = dict(
 )
 
 PROPS["C13"] = dict(
-    modules=["contracts.mirror"],
+    modules=["contracts.mirror"], bounded=["bounded.mirror_lattice"],
     claim="Direction handling is proved mirror-symmetric where it is implemented behind a function boundary: each such "
           "function has a direction-parametric contract proved against the real code, and a mirror lemma (a program that "
           "calls the function twice, through its contract, on a maximise input and on the negated minimise input) proves "
           "equal outcomes for ALL inputs: ThresholdPruner.prune with mirrored bounds; PatientPruner.prune (exact iff "
           "contract); _is_trial_promotable_to_next_rung (exact count-of-better-values contract, mirror by induction over "
           "the list); _get_best_intermediate_result_over_steps; _normalize_value/_dominates under flipping any subset of "
-          "objectives; InMemoryStorage.get_best_trial (same best trial number for pairwise-distinct values).",
-    note="TPE/GP/NSGA direction handling (numpy code) and PercentilePruner's percentile mirroring (np.nanpercentile "
-         "interpolation is not modelled) are not covered; the lemma for get_best_trial relies on the storage invariant R5 "
-         "proved under C12",
+          "objectives; InMemoryStorage.get_best_trial (same best trial number for pairwise-distinct values).  The numpy "
+          "parts (np.nanpercentile mirroring, TPE / NSGA-II / QMC direction handling, Wilcoxon pruner) only by a BOUNDED "
+          "run-time stand-in that runs the real code twice, mirrored (labelled bounded, not proved).",
+    note="GP sampler (torch) is not covered; TPE/NSGA-II/QMC direction handling and PercentilePruner's percentile mirroring "
+         "(np.nanpercentile interpolation is not modelled) only bounded; the lemma for get_best_trial relies on the storage "
+         "invariant R5 proved under C12",
     assumptions=LIB_ASSUMPTIONS + [
         "floats: negation is exact and order-reversing; x + d rounding is monotone (arithmetic modelled as exact reals, "
         "IEEE behaviour on infinities)",
@@ -387,9 +389,10 @@ PROPS["C13"] = dict(
         "storage invariant R1-R5 of InMemoryStorage (proved under C01/C12)",
         "wrapped pruners of PatientPruner are themselves mirror-symmetric (hypothesis of the lemma)",
     ],
-    not_covered=["TPESampler split by direction (_tpe/sampler.py:613-745)", "GPSampler sign (_gp/sampler.py:218-219)",
-                 "NSGA-II/III elite selection", "PercentilePruner percentile mirroring (100 - q) and np.nanpercentile",
-                 "WilcoxonPruner", "Study.best_trial constraint fallback", "RDB/journal/cached get_best_trial"],
+    not_covered=["TPESampler split by direction (_tpe/sampler.py:613-745): bounded only", "GPSampler sign (_gp/sampler.py:218-219)",
+                 "NSGA-II elite selection: bounded only; NSGA-III, CMA-ES: not at all",
+                 "PercentilePruner percentile mirroring (100 - q) and np.nanpercentile: bounded only",
+                 "WilcoxonPruner: bounded only", "Study.best_trial constraint fallback", "RDB/journal/cached get_best_trial"],
 )
 
 PROPS["C17"] = dict(
